@@ -192,6 +192,14 @@ class Codec(object):
         self.ir = ir
         self.rng = rng
         self.strict = strict      # False: encode non-conformant requests too (validation checks)
+        self.pad = False          # True: literals of the types whose whiteSpace facet is 'collapse' are written with blanks around them
+
+    def lit(self, t, text):
+        """the literal as it goes into the document (the date/time/duration types are left alone: libxml2, the second opinion on
+        what is valid under the published schema, does not collapse white space for them)"""
+        if self.pad and self.rng is not None and t.get('prim') not in (None, 'Unicode', 'Uuid', 'Time', 'Date', 'DateTime', 'Duration') and text is not None and self.rng.random() < .6:
+            return self.rng.choice((' ', '\n    ', '\t', '  ')) + text + self.rng.choice((' ', '\n  ', ''))
+        return text
 
     def _coin(self):
         return self.rng is not None and self.rng.random() < .5
@@ -243,7 +251,7 @@ class Codec(object):
         if 'prim' in t or 'enum' in t:
             if not S.is_simple(tq):
                 raise SchemaMismatch('primitive published as complex type %s' % tq)
-            el.text = v.text if isinstance(v, Raw) else to_text(S, tq, t, v)
+            el.text = v.text if isinstance(v, Raw) else self.lit(t, to_text(S, tq, t, v))
             return
         if 'array' in t:
             attrs, elems, simple = S.content(tq)
@@ -278,7 +286,7 @@ class Codec(object):
                     if isinstance(v.get(fn), Raw):
                         el.set(fn, v[fn].text)
                     elif v.get(fn) is not None and v.get(fn) is not NIL:
-                        el.set(fn, to_text(S, a['type'], ft['attr'], v[fn]))
+                        el.set(fn, self.lit(ft['attr'], to_text(S, a['type'], ft['attr'], v[fn])))
                     elif a.get('use') == 'required' and self.strict:
                         raise NotConformant('required attribute absent')
                 elif 'xmldata' in ft:
@@ -287,7 +295,7 @@ class Codec(object):
                     if isinstance(v.get(fn), Raw):
                         el.text = v[fn].text
                     elif v.get(fn) is not None and v.get(fn) is not NIL:
-                        el.text = to_text(S, simple, ft['xmldata'], v[fn])
+                        el.text = self.lit(ft['xmldata'], to_text(S, simple, ft['xmldata'], v[fn]))
                 elif fn not in byname_e:
                     raise SchemaMismatch('field %s not published on %s' % (fn, tq))
             for name in order:
@@ -533,6 +541,29 @@ class Wire(object):
 
     def serialize(self, el):
         return etree.tostring(el, xml_declaration=True, encoding='UTF-8')
+
+
+def vary_document(rng, el, how):
+    """The same document written the way another toolkit might: indented, with comments between the members, text in CDATA sections.
+    None of it changes what the document denotes under its schema."""
+    if 'comments' in how:
+        for e in list(el.iter()):
+            if isinstance(e.tag, str) and len(e) and rng.random() < .6:
+                e.insert(rng.randint(0, len(e)), etree.Comment(' %s ' % rng.choice(('note', '<x/>', 'a -- b'.replace('--', '- -'), ''))))
+    if 'pi' in how:
+        for e in list(el.iter()):
+            if isinstance(e.tag, str) and len(e) and rng.random() < .3:
+                e.insert(rng.randint(0, len(e)), etree.ProcessingInstruction('app', 'hint="1"'))
+    if 'cdata' in how:
+        for e in el.iter():
+            if isinstance(e.tag, str) and len(e) == 0 and e.text and ']]>' not in e.text and '\r' not in e.text and rng.random() < .6:
+                try:
+                    e.text = etree.CDATA(e.text)
+                except ValueError:
+                    pass
+    if 'indent' in how:
+        etree.indent(el, space=rng.choice(('  ', '\t', '    ')))
+    return el
 
 
 def build_validator(wsdl_bytes_or_app, app=None):
